@@ -127,7 +127,7 @@ impl<T: Tab + 'static> State<T> {
     fn get(&self, s: usize) -> &T {
         self.slots[s]
             .as_ref()
-            .unwrap_or_else(|| panic!("HARNESS: empty slot {}", s))
+            .unwrap_or_else(|| panic!("EMPTYSLOT {}", s))
     }
     /// Tables of the touched slots after the call.  A slot whose block view is bit-for-bit what
     /// it was before the call is logged as `same` (the specification then compares its own
@@ -183,10 +183,20 @@ impl<T: Tab + 'static> State<T> {
                     ev.insert(k, v);
                 }
             }
-            Err(_) => {
+            Err(payload) => {
                 self.slots = snapshot;
                 let _ = volute::verif::take_walk_log();
-                ev.insert("out".into(), json!("panic"));
+                let msg = if let Some(s) = payload.downcast_ref::<&str>() {
+                    s.to_string()
+                } else if let Some(s) = payload.downcast_ref::<String>() {
+                    s.clone()
+                } else {
+                    String::new()
+                };
+                // an operand slot is empty because an earlier call of this episode failed: the
+                // rest of the episode is not meaningful (the specification skips it)
+                let out = if msg.starts_with("EMPTYSLOT") { "skip" } else { "panic" };
+                ev.insert("out".into(), json!(out));
                 ev.insert("post".into(), json!([]));
             }
         }
@@ -423,6 +433,59 @@ impl<T: Tab + 'static> State<T> {
                 let r = av.vnext();
                 self.slots[a] = Some(av);
                 ok(vec![a], Some(json!(r)))
+            }
+            "reload" => {
+                // rebuild the same function from what `value()` says, through harness-packed blocks
+                let a = arg_usize(op, "a");
+                let d = arg_usize(op, "d");
+                let t = self.get(a);
+                let n = t.nv();
+                let on: Vec<usize> = (0..(1usize << n)).filter(|&m| t.val(m, "value")).collect();
+                self.slots[d] = Some(T::c_from_blocks(n, &pack(n, &on)));
+                ok(vec![a, d], None)
+            }
+            "conv_rt" | "conv_try" => {
+                let a = arg_usize(op, "a");
+                let d = arg_usize(op, "d");
+                let r = if name == "conv_rt" {
+                    self.get(a).conv_rt()
+                } else {
+                    self.get(a).conv_try(arg_usize(op, "n"))
+                };
+                match r {
+                    Ok(t) => {
+                        self.slots[d] = Some(t);
+                        ok(vec![a, d], None)
+                    }
+                    Err(()) => ("err", vec![a], None, Vec::new()),
+                }
+            }
+            "conv_int" => {
+                let w = arg_usize(op, "w");
+                let mut v: u64 = 0;
+                for b in arg_list(op, "vb") {
+                    v |= 1u64 << b;
+                }
+                let (t, back) = match w {
+                    8 => {
+                        let l = volute::Lut3::from(v as u8);
+                        (enc(&l), u8::from(l) as u64)
+                    }
+                    16 => {
+                        let l = volute::Lut4::from(v as u16);
+                        (enc(&l), u16::from(l) as u64)
+                    }
+                    32 => {
+                        let l = volute::Lut5::from(v as u32);
+                        (enc(&l), u32::from(l) as u64)
+                    }
+                    64 => {
+                        let l = volute::Lut6::from(v);
+                        (enc(&l), u64::from(l))
+                    }
+                    _ => panic!("HARNESS: bad width"),
+                };
+                ok(vec![], Some(json!({"t": t, "back": bits_of(back)})))
             }
             "copy" => {
                 let a = arg_usize(op, "a");
